@@ -1519,6 +1519,22 @@ class LuaMinifyTokenWriter(BaseLuaWriter):
         )
         self._last_was_name_keyword_number = False
         self._last_was_newline = True
+        self._last_token = None
+
+    def _merges_with_last(self, token):
+        """Whether writing the token right after the previous one would make
+        the two read as something else: '- -' as a comment, '[ [[' as a long
+        string, '.. .5', '.. ...' or '1 ..' as a different run of dots."""
+        last = self._last_token
+        if last is None or self._last_was_newline:
+            return False
+        last_code = last.code
+        code = token.code
+        return ((last_code.endswith(b'-') and code.startswith(b'-')) or
+                (last_code.endswith(b'[') and code.startswith(b'[')) or
+                (code.startswith(b'.') and
+                 (last_code.endswith(b'.') or
+                  last.matches(lexer.TokNumber))))
 
     def to_lines(self):
         """
@@ -1576,15 +1592,19 @@ class LuaMinifyTokenWriter(BaseLuaWriter):
                 self._last_was_newline = False
                 yield token.code
             elif token.matches(lexer.TokNumber):
-                if self._last_was_name_keyword_number:
+                if (self._last_was_name_keyword_number or
+                        self._merges_with_last(token)):
                     yield b' '
                 self._last_was_name_keyword_number = True
                 self._last_was_newline = False
                 yield token.code
             else:
+                if self._merges_with_last(token):
+                    yield b' '
                 self._last_was_name_keyword_number = token.code in b'])}'
                 self._last_was_newline = False
                 yield token.code
+            self._last_token = token
 
 
 class LuaFormatterTokenWriter(LuaASTEchoWriter):
